@@ -178,6 +178,20 @@ def run_partition(case, ctx, rng):
         parts = build_parts(spec, N)
         parts2 = build_parts(spec, N)
     ctx.require("part-count", len(parts) == N, key + "/count", got=len(parts), N=N)
+    if case["index"] % 2:
+        # the parts go through Mesh.Save / Load_Mesh (as Simu.Save / Load_Simu do with them): what is read back is the same partition
+        import tempfile, shutil
+        from EasyFEA.FEM._mesh import Load_Mesh  # noqa: PLC0415
+        tmpd = tempfile.mkdtemp(prefix="c20-", dir=os.environ.get("VERIF_TMP") or None)
+        try:
+            with ctx.monitored("no-exception", key + "/Save+Load_Mesh/raised"):
+                with quiet():
+                    back = [Load_Mesh(m.Save(tmpd, f"part{r}")) for r, m in enumerate(parts)]
+            ctx.require("reproducible", digest_parts(back) == digest_parts(parts), key + "/Save+Load_Mesh-changes-the-partition")
+            parts = back
+            key = key + "/reloaded"
+        finally:
+            shutil.rmtree(tmpd, ignore_errors=True)
     # ---- reproducible ----------------------------------------------------------------------------------------------------
     ctx.require("reproducible", digest_parts(parts) == digest_parts(parts2), key + "/two-builds-differ")
     pdata = [part_data(m) for m in parts]
